@@ -282,7 +282,7 @@ func runC13(c *Ctx) {
 	}
 
 	// ---------------------------------------------------------------- R4
-	c.rule("R4", "Contains refuses unsorted lists and invalid addresses", 2)
+	c.rule("R4", "Contains refuses unsorted lists and invalid addresses; every verdict comes from the search", 3)
 	if ct := c.fn(relNetlist, "List", "Contains"); ct != nil {
 		panics, invalid := false, false
 		for _, b := range ct.Blocks {
@@ -305,6 +305,47 @@ func runC13(c *Ctx) {
 				}
 			}
 		}
+		// every verdict comes from the search: false only for an invalid address or an empty prefix range, else Prefix.Contains
+		shapeOK := true
+		why := ""
+		for _, r := range returnsOf(ct) {
+			v := returnedValues(r)[0]
+			if cl, ok := v.(*ssa.Call); ok && callName(cl) == "(net/netip.Prefix).Contains" {
+				continue
+			}
+			if bv, ok := constBool(v); ok && !bv {
+				okG := false
+				for _, g := range guardsOfInstr(r) {
+					if vv, truth := g.asBool(); !truth {
+						if cl, ok := vv.(*ssa.Call); ok && callName(cl) == "(net/netip.Addr).IsValid" {
+							okG = true
+						}
+					}
+					if cm, ok := g.asCmp(); ok && cm.Op == token.EQL {
+						if n, ok := constInt(cm.Y); ok && n == 0 {
+							if _, isPhi := cm.X.(*ssa.Phi); isPhi {
+								okG = true
+							}
+						}
+					}
+				}
+				// no other guard may lead to a false verdict
+				extra := 0
+				for _, g := range guardsOfInstr(r) {
+					if vv, _ := g.asBool(); vv != nil {
+						if cl, ok := vv.(*ssa.Call); ok && callName(cl) != "(net/netip.Addr).IsValid" {
+							extra++
+						}
+					}
+				}
+				if !okG || extra > 0 {
+					shapeOK, why = false, "a 'false' verdict is returned without searching (guarded by something other than 'invalid address' / 'no prefix starts at or before it')"
+				}
+				continue
+			}
+			shapeOK, why = false, "returns "+exprStr(v)
+		}
+		c.check(shapeOK, "verdict-from-search@Contains", ct.Pos(), "every verdict comes from the search or from the invalid-address check", why+": e.g. a shortcut for IPv4 queries ignores IPv6-form prefixes that cover the mapped range")
 		c.check(panics, "refuse-unsorted@Contains", ct.Pos(), "an unsorted list is refused", "Contains searches lists that are not sorted")
 		c.check(invalid, "invalid-addr@Contains", ct.Pos(), "the zero address matches nothing", "an invalid address is searched for")
 	}
@@ -334,6 +375,16 @@ func runC13(c *Ctx) {
 					}
 				}
 				good = vals[32] && vals[128] && len(vals) == 2 && v6
+				// the address stored is the very address whose family decided the length
+				for i := range phi.Edges {
+					for _, g := range guardsOf(phi.Block().Preds[i]) {
+						if v, _ := g.asBool(); v != nil {
+							if cl, ok := v.(*ssa.Call); ok && callName(cl) == "(net/netip.Addr).Is6" && cl.Call.Args[0] != ci.Call.Args[0] {
+								good = false
+							}
+						}
+					}
+				}
 			}
 		})
 		c.check(good, "full-length@LoadFromText", f.Pos(), "a bare address becomes /32 or /128 by family", "a bare address is not loaded as a /32 (IPv4) or /128 (IPv6) prefix")
